@@ -260,7 +260,7 @@ func checkC06(c *Ctx) {
 					if !ok {
 						return false
 					}
-					b, isC := eng.ConstBool(ret.Results[0])
+					b, isC := eng.ConstBool(eng.ReturnResults(ret)[0])
 					return !(isC && !b)
 				}
 				prob := ""
@@ -463,10 +463,10 @@ func checkC06(c *Ctx) {
 			// every return reachable from the over-limit edge returns a non-nil error
 			bad := eng.BlockReaches(over, func(in ssa.Instruction) bool {
 				ret, ok := in.(*ssa.Return)
-				if !ok || len(ret.Results) == 0 {
+				if !ok || len(eng.ReturnResults(ret)) == 0 {
 					return false
 				}
-				e := ret.Results[len(ret.Results)-1]
+				e := eng.ReturnResults(ret)[len(eng.ReturnResults(ret))-1]
 				return !definitelyNonNilErr(e) && !eng.KnownNonNil(e, ret.Block())
 			}, nil)
 			if bad != nil {
@@ -481,10 +481,10 @@ func checkC06(c *Ctx) {
 			}
 			bypass := (&eng.Search{Target: func(in ssa.Instruction) bool {
 				ret, ok := in.(*ssa.Return)
-				if !ok || len(ret.Results) == 0 {
+				if !ok || len(eng.ReturnResults(ret)) == 0 {
 					return false
 				}
-				e := ret.Results[len(ret.Results)-1]
+				e := eng.ReturnResults(ret)[len(eng.ReturnResults(ret))-1]
 				return !definitelyNonNilErr(e) && !eng.KnownNonNil(e, ret.Block())
 			}, Avoid: func(in ssa.Instruction) bool { return in == ssa.Instruction(g.iff) }}).FromEntry(m.dataRead)
 			if bypass != nil {
@@ -502,8 +502,8 @@ func checkC06(c *Ctx) {
 			// D3: how does F treat the over-limit error?
 			var sentinel *ssa.Global
 			eng.BlockReaches(over, func(in ssa.Instruction) bool {
-				if ret, ok := in.(*ssa.Return); ok && len(ret.Results) > 0 {
-					if u, ok := ret.Results[len(ret.Results)-1].(*ssa.UnOp); ok && u.Op == token.MUL {
+				if ret, ok := in.(*ssa.Return); ok && len(eng.ReturnResults(ret)) > 0 {
+					if u, ok := eng.ReturnResults(ret)[len(eng.ReturnResults(ret))-1].(*ssa.UnOp); ok && u.Op == token.MUL {
 						if gl, ok := u.X.(*ssa.Global); ok {
 							sentinel = gl
 						}
